@@ -227,12 +227,14 @@ class CartesianGrid(StructuredGrid):
         """
         xwOld = self._unitSteps[0][0]
         ywOld = self._unitSteps[1][1]
-        self._unitSteps = np.array(((xw, 0.0, 0.0), (0.0, yw, 0.0), (0, 0, 0)))[
-            self._stepDims
-        ]
+        unitSteps = np.array(((xw, 0.0, 0.0), (0.0, yw, 0.0), (0, 0, 0)))
+        if 2 in self._stepDims[0]:
+            # the pitch is the spacing in the x-y plane: the axial step of a 3-D grid is kept
+            unitSteps[2] = self._unitSteps[2]
+        self._unitSteps = unitSteps[self._stepDims]
         newOffsetX = self._offset[0] * xw / xwOld
         newOffsetY = self._offset[1] * yw / ywOld
-        self._offset = np.array((newOffsetX, newOffsetY, 0.0))
+        self._offset = np.array((newOffsetX, newOffsetY, self._offset[2]))
 
     def getSymmetricEquivalents(self, indices):
         symmetry = self.symmetry  # construct the symmetry object once up top
